@@ -142,11 +142,32 @@ def gap_guard(w, k, rel_gap=1e-6, rel_floor=1e-8):
 
 
 def x_guard(X, tol=1e-12):
-    """X^T X eigenvalues must be clearly kept or clearly rounding noise w.r.t. the
-    estimator's absolute cut self.tol."""
-    from .sel import spectrum_clear_of_cut
+    """Every direction of X is either clearly kept by the estimator's eigenvalue cut (tol x max(1, largest eigenvalue of
+    X^T X)) or is rounding noise of the SVD of X.  A REAL direction (singular value well above eps x sigma_1) whose
+    SQUARE falls below the cut is dropped by the feature-space route but still carries regression targets in the
+    sample-space route: the documented equivalence is then 'up to tol', not up to rounding, and the case is skipped."""
+    sv = np.linalg.svd(np.asarray(X, dtype=float), compute_uv=False)
+    if not len(sv) or sv[0] <= 0:
+        return False
+    w = sv**2
+    cut = tol * max(1.0, float(w[0]))
+    kept = w > max(100 * cut, 1e-7 * w[0])
+    noise = sv < 50 * np.finfo(float).eps * sv[0] * max(X.shape)
+    return bool(np.all(kept | noise))
 
-    return spectrum_clear_of_cut(np.linalg.eigvalsh(X.T @ X), cut=tol, absolute_cut=False)  # PCovR's cut is relative to the largest eigenvalue
+
+def reg_guard(reg, X, limit=2e6):
+    """The regressed targets are scikit-learn's (trusted), but a ridge system is only solved to eps x its condition
+    number, and differently for C-ordered, Fortran-ordered or integer-typed X: PCovR's default regressor regularises
+    with an ABSOLUTE alpha = 1e-6, so on rank-deficient data of scale >~ 1 the regression itself is ill-posed.  Cases
+    whose regression is not determined to 1e-9 are skipped."""
+    if reg["kind"] not in ("default", "ridge"):
+        return True
+    alpha = 1e-6 if reg["kind"] == "default" else float(reg["alpha"])
+    sv = np.linalg.svd(np.asarray(X, dtype=float), compute_uv=False)
+    lam = sv**2
+    lmin = float(lam[-1]) if len(lam) == X.shape[1] else 0.0
+    return bool((float(lam[0]) + alpha) / (lmin + alpha) <= limit)
 
 
 def align(A, B):
